@@ -293,7 +293,7 @@ def run(rec):
                     e = exact_diag.ExactDiag(M)
                     e.build_full_H_from_mpo()
                     return np.sort(np.linalg.eigvalsh(e.full_H.to_ndarray()))
-                ok, ev = rec.guarded('ExactDiag.build_full_H_from_mpo:exception', ed, inp)
+                ok, ev = rec.guarded('ExactDiag.build_full_H_from_mpo:exception', ed, inp) if len(Hs) <= 300 else (False, None)
                 if ok:
                     rec.check(np.allclose(ev, np.sort(np.linalg.eigvalsh(Hs)), atol=1e-8 * scale), 'ExactDiag(from_mpo):spectrum', '', inp)
                 # representation-only options: sorted legs, grouped sites
